@@ -35,7 +35,7 @@ LEVEL_NOTE = ("Trusted: Coq kernel, extraction, the translator's whitelist, the 
               "CPython's typing registry is cumulative per qualified name: agreement of a *redefined* overloaded name with typing.get_overloads "
               "is stated as a decomposition theorem, not as equality. All theorems are closed under the global context.")
 MODEL = ("Model.C02_run", "run_C02")
-COQ_TARGETS = ["Model/C02_run.vo", "Proofs/C02_params.vo", "Proofs/C02_container.vo", "Proofs/C02_scope.vo"]
+COQ_TARGETS = ["Model/C02_run.vo", "Proofs/C02_params.vo", "Proofs/C02_container.vo", "Proofs/C02_scope.vo", "Proofs/C02_tree.vo"]
 TRANSLATOR_NAME = "harness/translate/c02_tables.py"
 RULE = ("signatures: exhaustive count vectors (posonly,args,vararg?,kwonly,kwarg?,#defaults,kw-default mask) with each list <=3 "
         "(quick: <=2 plus a seeded sample of <=3), x annotations on/off, rotating contexts def/async def/method/lambda default; seeded random "
@@ -43,7 +43,8 @@ RULE = ("signatures: exhaustive count vectors (posonly,args,vararg?,kwonly,kwarg
         "spellings, complex, str, bytes, None, Ellipsis, bools, negatives, tuples and displays of them), also as lambda parameters; bound views of the same vectors as instance/class/static methods; "
         "bodies: random straight-line class/module/function bodies of decorated defs and other binders (decorators spelled several ways, "
         "stacked, nested in if/try blocks), idiomatic bodies with repeated overload groups and property blocks per name in sequence and in "
-        "if/else branches; container: random operation sequences (get/set/del by name and index, in, len, iter, add) with probes after each "
+        "if/else branches; trees: a module body plus (nested) classes whose bodies share the member names; lambdas used as defaults (every vector <=2 as the "
+        "lambda's own parameter list, structured and as text); container: random operation sequences (get/set/del by name and index, in, len, iter, add) with probes after each "
         "mutation, from visited definitions and from directly constructed (possibly duplicate) contents. "
         "non-trivial = has a default or more than one kind (signatures), a decorator (bodies), a mutation (container); distinct by canonical value")
 TRUSTED = ["abstraction: harness walks ast.parse(source).args into the model's `arguments` record and maps annotation/default atoms A<k>/<k> to integers",
@@ -1023,6 +1024,10 @@ SCOPE_PATH = {"module": "m", "class": "m.C", "function": "m.C.__init__"}
 
 
 def model_items(items, scope, only_live=False):
+    return model_items_at(items, SCOPE_PATH[scope], only_live)
+
+
+def model_items_at(items, spath, only_live=False):
     out = []
     for it in items:
         if only_live and not it[4]:
@@ -1034,8 +1039,8 @@ def model_items(items, scope, only_live=False):
                 if d in DECO_PATHS:
                     paths.append(["path", DECO_PATHS[d]])
                 else:
-                    paths.append(["path", f"{SCOPE_PATH[scope]}.{d}"])       # <name>.setter / <name>.deleter
-            out.append(["def", line, name, f"{SCOPE_PATH[scope]}.{name}", paths])
+                    paths.append(["path", f"{spath}.{d}"])       # <name>.setter / <name>.deleter
+            out.append(["def", line, name, f"{spath}.{name}", paths])
         else:
             out.append(["bind", it[1], it[2]])
     return out
@@ -1052,16 +1057,17 @@ def make_capture():
     class Capture(griffe.Extension):
         """Records, for every object the visitor creates in the scope under test, what happened to it at that moment."""
 
-        def __init__(self, scope_path):
-            self.scope_path = scope_path
+        def __init__(self, scope_path, names=NAMES):
+            self.scope_paths = {scope_path} if isinstance(scope_path, str) else set(scope_path)
+            self.names = set(names)
             self.log = {}        # line -> outcome
             self.impls = {}      # line -> Function set as member (to re-read its overloads after the visit)
 
         def _here(self, agent):
-            return agent.current.path == self.scope_path
+            return agent.current.path in self.scope_paths
 
         def on_function_instance(self, *, node, func, agent, **kwargs):
-            if not self._here(agent) or func.name not in NAMES:
+            if not self._here(agent) or func.name not in self.names:
                 return
             cur = agent.current
             member = cur.members.get(func.name)
@@ -1079,15 +1085,15 @@ def make_capture():
                 self.log[node.lineno] = ["dropped"]
 
         def on_attribute_instance(self, *, node, attr, agent, **kwargs):
-            if self._here(agent) and attr.name in NAMES and isinstance(node, (ast.FunctionDef, ast.AsyncFunctionDef)):
+            if self._here(agent) and attr.name in self.names and isinstance(node, (ast.FunctionDef, ast.AsyncFunctionDef)):
                 self.log[node.lineno] = ["property"]
 
         def on_class_instance(self, *, node, cls, agent, **kwargs):
-            if agent.current.path == f"{self.scope_path}.{cls.name}" and cls.name in NAMES:   # current is already the new class
+            if cls.path.rsplit(".", 1)[0] in self.scope_paths and cls.name in self.names:   # current is already the new class
                 self.log[node.lineno] = ["bind"]
 
         def on_alias(self, *, node, alias, agent, **kwargs):
-            if self._here(agent) and alias.name in NAMES:
+            if self._here(agent) and alias.name in self.names:
                 self.log[node.lineno] = ["bind"]
 
     return Capture
@@ -1105,9 +1111,13 @@ def impl_body(src, scope, items):
     cap = _CAPTURE(SCOPE_PATH[scope])
     mod = griffe.visit("m", filepath=None, code=src, extensions=griffe.load_extensions(cap))
     obj = mod if scope == "module" else mod.members["C"] if scope == "class" else mod.members["C"].members["__init__"]
+    return observe_scope(obj, cap, items, NAMES, scope != "function")
+
+
+def observe_scope(obj, cap, items, names, tracks=True):
     mem = []
     for name, m in obj.members.items():
-        if name not in NAMES:
+        if name not in names:
             continue
         if m.is_alias:
             mem.append([name, "other", m.alias_lineno])
@@ -1117,10 +1127,11 @@ def impl_body(src, scope, items):
             mem.append([name, "property", m.lineno, [] if m.setter is None else [_def_line(m.setter)], [] if m.deleter is None else [_def_line(m.deleter)]])
         else:
             mem.append([name, "other", m.lineno])
-    registry = obj.overloads if scope != "function" else {}
-    buf = sorted([k, [_def_line(o) for o in v]] for k, v in registry.items() if v and k in NAMES)  # defaultdict key order is not observable
+    registry = obj.overloads if tracks else {}
+    buf = sorted([k, [_def_line(o) for o in v]] for k, v in registry.items() if v and k in names)  # defaultdict key order is not observable
     log = [cap.log.get(it[1], ["missing"]) for it in items]
-    final = {line: [_def_line(o) for o in (fn.overloads or [])] for line, fn in cap.impls.items()}
+    lines = {it[1] for it in items}
+    final = {line: [_def_line(o) for o in (fn.overloads or [])] for line, fn in cap.impls.items() if line in lines}
     return [mem, buf, log], final
 
 
@@ -1162,6 +1173,19 @@ def oracle_body(src, scope, items):
     except Exception as e:  # noqa: BLE001
         return ["err", type(e).__name__]
     holder = ns["C"].__dict__ if scope == "class" else ns
+    return oracle_scope(holder, "C." if scope == "class" else "", first_to_def, bind_lines)
+
+
+def first_to_def_lines(src):
+    out = {}
+    for node in ast.walk(ast.parse(src)):
+        if isinstance(node, (ast.FunctionDef, ast.AsyncFunctionDef)):
+            out[node.decorator_list[0].lineno if node.decorator_list else node.lineno] = node.lineno
+    return out
+
+
+def oracle_scope(holder, qual_prefix, first_to_def, bind_lines):
+    import functools
     line = lambda fn: first_to_def[_unwrap(fn).__code__.co_firstlineno]
     view = {}
     for name in NAMES:
@@ -1184,7 +1208,7 @@ def oracle_body(src, scope, items):
             return ["err", "unsupported"]       # e.g. property(property(...)), property(<overload dummy>): outside the modelled shapes
     reg = {}
     for name in NAMES:
-        probe = types.SimpleNamespace(__module__="c02mod", __qualname__=f"C.{name}" if scope == "class" else name)
+        probe = types.SimpleNamespace(__module__="c02mod", __qualname__=qual_prefix + name)
         got = [line(f) for f in typing.get_overloads(probe)]
         if got:
             reg[name] = got
@@ -1232,6 +1256,246 @@ def direct_body_check(items, impl, final, orc):
         if got != reg.get(name, []):
             return {"check": "overloads", "name": name, "griffe_attached_then_pending": got, "cpython_get_overloads": reg.get(name, [])}
     return None
+
+
+# ---- several scopes in one module: module body + classes (same member names in each) + nested classes
+CLASS_NAMES = ["A", "B", "D"]
+
+
+def tree_case(rng):
+    """module statements and 2-3 classes, the first two possibly holding a nested class D; every body draws from the
+    same three member names, so that anything the visitor keeps per module (not per scope) shows."""
+    idiom = rng.random() < 0.7
+    gen = (lambda sc: idiomatic_stmts(rng, sc)) if idiom else (lambda sc: random_stmts(rng, rng.randint(1, 5), sc))
+    top = gen("module") if rng.random() < 0.6 else []
+    classes = []
+    for name in ("A", "B"):
+        body = gen("class")
+        if rng.random() < 0.4:
+            body.insert(rng.randint(0, len(body)), ("class", "D", gen("class")))
+        classes.append(("class", name, body))
+    if rng.random() < 0.3:
+        classes.append(("class", "D", gen("class")))
+    k = rng.randint(0, len(top))
+    return ("idiom" if idiom else "random"), top[:k] + classes[:1] + top[k:] + classes[1:]
+
+
+def render_tree(stmts):
+    """-> source, {scope path: items}, model tree, {scope path: (kind, parent holder path)}"""
+    lines = list(PRELUDE)
+    scopes = {"m": []}
+
+    def emit(stmts, ind, live, spath, tree):
+        if not stmts:
+            lines.append(f"{ind}pass")
+        for st in stmts:
+            kind = st[0]
+            if kind == "def":
+                _, name, decos, is_async = st
+                for d in decos:
+                    lines.append(f"{ind}@{d}")
+                lines.append(f"{ind}{'async ' if is_async else ''}def {name}(self=None): ...")
+                it = ("def", len(lines), name, list(decos), live)
+                scopes[spath].append(it)
+                tree.append(model_items_at([it], spath)[0])
+            elif kind == "bind":
+                _, name, how = st
+                lines.append(f"{ind}class {name}: pass" if how == "class" else f"{ind}from os import path as {name}")
+                it = ("bind", len(lines), name, how, live)
+                scopes[spath].append(it)
+                tree.append(["bind", it[1], name])
+            elif kind == "class":
+                _, name, body = st
+                lines.append(f"{ind}class {name}:")
+                it = ("bind", len(lines), name, "scope", live)
+                scopes[spath].append(it)
+                sub = f"{spath}.{name}"
+                scopes[sub] = []
+                subtree = []
+                tree.append(["class", it[1], name, subtree])
+                emit(body, ind + "    ", live, sub, subtree)
+            elif kind in ("if_t", "try", "with"):
+                lines.append(f"{ind}" + {"if_t": "if FLAG_T:", "try": "try:", "with": "with nullcontext():"}[kind])
+                emit(st[1], ind + "    ", live, spath, tree)
+                if kind == "try":
+                    lines.extend([f"{ind}finally:", f"{ind}    pass"])
+            elif kind == "if_else":
+                lines.append(f"{ind}if FLAG_F:")
+                emit(st[1], ind + "    ", False, spath, tree)
+                lines.append(f"{ind}else:")
+                emit(st[2], ind + "    ", live, spath, tree)
+            else:
+                raise AssertionError(st)
+    tree = []
+    emit(stmts, "", True, "m", tree)
+    return "\n".join(lines) + "\n", scopes, tree
+
+
+def check_trees(ctx, n, use_model=True):
+    import griffe
+    global _CAPTURE
+    if _CAPTURE is None:
+        _CAPTURE = make_capture()
+    rng = ctx.rng
+    cases = [tree_case(rng) for _ in range(n)]
+    rendered = [render_tree(st) for _, st in cases]
+    if use_model:
+        m_run = ctx.model([["tree", "m", tree] for _, _, tree in rendered])
+        m_spec = ctx.model([["tree-spec", "m", tree] for _, _, tree in rendered])
+        flat = [(i, sp) for i, (_, scopes, _) in enumerate(rendered) for sp in scopes]
+        m_cpy = dict(zip(flat, ctx.model([["cpy", model_items_at(rendered[i][1][sp], sp, only_live=True)] for i, sp in flat])))
+    names = set(NAMES) | set(CLASS_NAMES)
+    for i, ((stream, stmts), (src, scopes, tree)) in enumerate(zip(cases, rendered)):
+        if use_model:
+            ctx.case({"stream": "tree-" + stream, "body": stmts}, True)
+            ctx.observe("tree_scopes", len(scopes))
+            ctx.observe("tree_stream", stream)
+        else:
+            ctx.evaluations += 1
+        cap = _CAPTURE(set(scopes), names)
+        try:
+            mod = griffe.visit("m", filepath=None, code=src, extensions=griffe.load_extensions(cap))
+            impl, finals = {}, {}
+            for sp, items in scopes.items():
+                obj = mod
+                for part in sp.split(".")[1:]:
+                    obj = obj.members[part]
+                impl[sp], finals[sp] = observe_scope(obj, cap, items, names)
+        except Exception as e:  # noqa: BLE001
+            ctx.property_failure({"source": src}, {"griffe": "visit raised " + repr(e)})
+            if not use_model:
+                return True
+            continue
+        if use_model:
+            cur, fin, depth = m_run[i]
+            model = {cur[0]: norm_model_scope(cur[1])}
+            for fr in fin:
+                model[fr[0]] = norm_model_scope(fr[1])
+            if m_run[i] != m_spec[i] or depth != 0:
+                ctx.tie_failure("extraction", "traversal machine vs compositional reading (a theorem)", {"machine": m_run[i], "spec": m_spec[i]}, {"source": src})
+            if model != impl:
+                bad = [sp for sp in impl if model.get(sp) != impl[sp]]
+                ctx.tie_failure("correspondence", "traversal of nested class bodies (model) vs griffe.visit, per scope",
+                                {"scopes": bad, "model": {sp: model.get(sp) for sp in bad}, "impl": {sp: impl[sp] for sp in bad}}, {"source": src})
+        ctx.count("tree_cases")
+        # CPython
+        typing.clear_overloads()
+        ns = {"__name__": "c02mod"}
+        sys.modules.pop("c02mod", None)
+        try:
+            exec(compile(src, "<c02tree>", "exec", dont_inherit=True), ns)
+            executed = True
+        except Exception as e:  # noqa: BLE001
+            executed = False
+            if use_model:
+                ctx.observe("tree_exec", type(e).__name__)
+            if stream == "idiom":
+                ctx.tie_failure("harness", "idiomatic tree does not execute", {"error": repr(e)}, {"source": src})
+        if not executed:
+            continue
+        f2d = first_to_def_lines(src)
+        for sp, items in scopes.items():
+            holder = ns
+            ok = True
+            for part in sp.split(".")[1:]:
+                holder = (holder if isinstance(holder, dict) else holder.__dict__).get(part)
+                if not isinstance(holder, type):
+                    ok = False       # the class name was re-bound to something else in its parent
+                    break
+            if not ok:
+                continue
+            holder = holder if isinstance(holder, dict) else holder.__dict__
+            qual = ".".join(sp.split(".")[1:])
+            bind_lines = {it[2]: it[1] for it in items if it[0] == "bind" and it[4]}
+            orc = oracle_scope(holder, qual + "." if qual else "", f2d, bind_lines)
+            if use_model:
+                mcn = norm_cpy_model(m_cpy[(i, sp)])
+                if mcn[0] == "ok":
+                    mcn[1] = {k: v for k, v in mcn[1].items() if k in NAMES}      # nested classes are binders of their parent
+                ctx.observe("tree_cpy_model", mcn[0] if mcn[0] == "ok" else mcn[1])
+                if mcn[0] == "ok" and orc[0] == "ok" and mcn != orc:
+                    ctx.tie_failure("oracle", "cpy_exec(model) vs exec, per scope of a tree", {"scope": sp, "model": mcn, "cpython": orc}, {"source": src})
+            if orc[0] != "ok" or not all(supported_def(it[2], it[3]) for it in items if it[0] == "def"):
+                continue
+            # an accessor of a name this class body has not bound yet resolves in the module (a foreign accessor)
+            bound, outside = set(), False
+            for it in items:
+                if it[0] == "def" and any(deco_role(x, it[2]) == "accessor" for x in it[3]) and it[2] not in bound and sp != "m":
+                    outside = True
+                if it[4] and not (it[0] == "def" and any(deco_role(x, it[2]) == "overload" for x in it[3])):
+                    bound.add(it[2])
+            if outside:
+                ctx.count("tree_direct_skipped_accessor_resolves_outside")
+                continue
+            bad = direct_body_check(items, impl[sp], finals[sp], orc)
+            ctx.count("tree_direct_checks")
+            if bad:
+                ctx.property_failure({"source": src, "scope": sp}, bad)
+                if not use_model:
+                    return True
+                break
+    return False
+
+
+# ---- lambdas used as defaults: the lambda's own parameter list (same get_parameters) and its text
+def check_lambda_defaults(ctx, vecs, use_model=True):
+    import griffe
+    cases = []
+    for idx, v in enumerate(vecs):
+        sig = render_sig(v, False)
+        how = idx % 3
+        src = (f"def outer(cb=lambda {sig}: 0): ...\n" if how == 0 else f"class C:\n    async def outer(self, *, cb=lambda {sig}: 0): ...\n" if how == 1
+               else f"def outer(a, cb=(lambda {sig}: 0), /): ...\n")
+        cases.append((v, src, ("outer",) if how != 1 else ("C", "outer")))
+    if use_model:
+        absargs = []
+        for v, src, path in cases:
+            lam = next(n for n in ast.walk(ast.parse(src)) if isinstance(n, ast.Lambda))
+            absargs.append(abstract_arguments(lam.args))
+        m_params = ctx.model([["params", a] for a in absargs])
+    else:
+        m_params = [None] * len(cases)
+
+    def enc_sig(fn):
+        return [enc_inspect_param(p) for p in inspect.signature(fn).parameters.values()]
+    for (v, src, path), mp in zip(cases, m_params):
+        if use_model:
+            ctx.case({"lambda_default": list(v), "source": src}, sum(v[:5]) > 0)
+            ctx.observe("lambda_default_n_params", v[0] + v[1] + v[2] + v[3] + v[4])
+        else:
+            ctx.evaluations += 1
+        ns = exec_ns(src)
+        outer = ns[path[0]] if len(path) == 1 else getattr(ns[path[0]], path[1])
+        cdef = inspect.signature(outer).parameters["cb"].default
+        orc = enc_sig(cdef)
+        try:
+            fn = griffe_object(src, path)
+            d = fn.parameters["cb"].default
+            lam = d
+            while not hasattr(lam, "parameters"):         # a parenthesised lambda may be wrapped
+                lam = next(x for x in lam.iterate(flat=False) if not isinstance(x, str))
+            got = []
+            for p in lam.parameters:
+                kind = KIND_NAMES[p.kind.name]
+                dd = [] if p.default is None else [1, str(p.default)] if kind in ("VP", "VK") else [0, int(str(p.default))]
+                got.append([p.name, [], kind, dd, 1 if p.default is None else 0])
+            impl = ["ok", got]
+            text = str(d)
+        except Exception as e:  # noqa: BLE001
+            impl, text = ["err", type(e).__name__], None
+        try:
+            tview = enc_sig(eval(text, {})) if text is not None else None  # noqa: S307
+        except Exception as e:  # noqa: BLE001
+            tview = ["unevaluable", type(e).__name__, text]
+        if use_model and mp != impl:
+            ctx.tie_failure("correspondence", "get_parameters(model) vs ExprLambda.parameters of a lambda default", {"model": mp, "impl": impl}, {"source": src})
+        if impl != ["ok", orc] or tview != orc:
+            ctx.property_failure({"source": src, "path": list(path), "view": "lambda used as default"},
+                                 {"griffe_lambda_parameters": impl, "griffe_default_text": text, "signature_of_evaluated_text": tview, "cpython_default_signature": orc})
+            if not use_model:
+                return True
+        ctx.count("lambda_default_cases")
+    return False
 
 
 def body_cases(ctx, n_random, n_idiom, n_function):
@@ -1387,6 +1651,8 @@ def explore(ctx):
     check_literal_defaults(ctx, ctx.budget(600, 6000))
     check_malformed_arguments(ctx)
     check_bodies(ctx, ctx.budget(700, 8000), ctx.budget(700, 8000), ctx.budget(150, 1500))
+    check_trees(ctx, ctx.budget(300, 3000))
+    check_lambda_defaults(ctx, list(vectors(2)) + [random_vector(ctx.rng, 4) for _ in range(ctx.budget(150, 1500))])
     # after the bodies (which contain decorated coroutines, properties, ...): state must not leak between definitions
     check_signatures(ctx, [random_vector(ctx.rng) for _ in range(ctx.budget(300, 4000))], "random<=8")
     bound = [v for v in vectors(2)] if ctx.quick else vecs
@@ -1413,6 +1679,10 @@ def search(ctx):
     if check_literal_defaults(ctx, 3000, use_model=False):
         return
     if check_bodies(ctx, 2000, 3000, 0, use_model=False):
+        return
+    if check_trees(ctx, 1500, use_model=False):
+        return
+    if check_lambda_defaults(ctx, list(vectors(2)) + [random_vector(ctx.rng, 4) for _ in range(500)], use_model=False):
         return
     if check_bound_views(ctx, list(vectors(2)) + [random_vector(ctx.rng, 5) for _ in range(1000)], use_model=False):
         return
